@@ -130,6 +130,9 @@ Definition make (cap esz : N) : M unit :=
            else (Ok tt, mkst (inp s) (alloc s + cap * esz) (N.max (peak s) (cap * esz))).
 
 (** * tl/decoder.go *)
+(* const maxPrealloc: what is allocated up front for a length taken from the wire *)
+Definition max_prealloc : N := 4096.
+
 (* readByteSlice *)
 Definition read_byte_slice : M bytes :=
   dom fb <- read_full 1;                                  (* readByte *)
@@ -143,7 +146,9 @@ Definition read_byte_slice : M bytes :=
     dom _ <- make 4 1;                                    (* sizeBuf := make([]byte, 4) *)
     dom sz <- read_full 3;                                (* io.ReadFull(r, sizeBuf[:3]) *)
     let n := le_num sz in                                 (* binary.LittleEndian.Uint32(sizeBuf) *)
-    dom _ <- make n 1;                                    (* data = make([]byte, n) — before reading *)
+    (* readN: make([]byte, n) only up to maxPrealloc; above it a bytes.Buffer
+       grows with the data that arrives (io.CopyN), an error if it is short *)
+    dom _ <- (if n <=? max_prealloc then make n 1 else mret tt);
     dom data <- read_fullN n;
     dom _ <- read_full (pad_of (4 + n));
     mret data
@@ -162,7 +167,7 @@ Fixpoint iter_pos (D : M value) (p : positive) (acc : list value) : M (list valu
 Definition decode_vector (D : M value) (esz : N) : M value :=
   dom b <- read_full 4;
   let ln := le_num b in                                   (* int(binary.LittleEndian.Uint32(b[:])) *)
-  dom _ <- make ln esz;                                   (* reflect.MakeSlice(val.Type(), 0, ln) *)
+  dom _ <- make (N.min ln max_prealloc) esz;              (* reflect.MakeSlice(val.Type(), 0, min(ln, maxPrealloc)) *)
   match ln with
   | N0 => mret (VVec [])
   | Npos p => dom acc <- iter_pos D p []; mret (VVec (rev acc))
@@ -275,7 +280,9 @@ Fixpoint gdec (B : bindings) (fuel : nat) (t : gty) {struct fuel} : M value :=
   end.
 
 Definition st0 (bs : bytes) : st := mkst bs 0 0.
-Definition go_fuel : nat := 32.
+(* nesting of tl.Marshal / tl.Unmarshal calls: a TL value of depth d needs at
+   most 3 d (boxed wrapper -> bare struct -> pointer of an optional field) *)
+Definition go_fuel : nat := 3 * S tl_fuel.
 (* tl.Unmarshal(bytes.NewReader(bs), &x): outcome, unread bytes, allocation *)
 Definition go_unmarshal (B : bindings) (t : gty) (bs : bytes) : res value * st :=
   gdec B go_fuel t (st0 bs).
